@@ -307,6 +307,11 @@ def tags(rng, lo=1, hi=3):
     return out
 
 
+def _shuffled_dict(rng, d):
+    items = list(d.items())
+    return {items[i][0]: items[i][1] for i in rng.permutation(len(items))} if items else {}
+
+
 # ------------------------------------------------------------------ gates
 _SPECS = {}
 
@@ -782,10 +787,11 @@ def circuit_op(rng, fc=None, depth=0):
                         qm[q] = nq
                         break
         if qm:
-            kw["qubit_map"] = qm
+            # the spelling order of a mapping carries no meaning: insert in random order
+            kw["qubit_map"] = _shuffled_dict(rng, qm)
     keys = sorted(cirq.measurement_key_names(fc))
     if keys and rng.random() < 0.5 and "repeat_until" not in kw:
-        kw["measurement_key_map"] = {k: pick(rng, ["n", "z", "k2"]) + str(i) for i, k in enumerate(keys) if rbool(rng)}
+        kw["measurement_key_map"] = _shuffled_dict(rng, {k: pick(rng, ["n", "z", "k2"]) + str(i) for i, k in enumerate(keys) if rbool(rng)})
     params = sorted(cirq.parameter_names(fc))
     if params and rng.random() < 0.7:
         pr = {}
@@ -793,7 +799,7 @@ def circuit_op(rng, fc=None, depth=0):
             if rbool(rng):
                 pr[sympy.Symbol(p) if rbool(rng) else p] = pick(rng, [rfloat(rng), rsymbol(rng), int(rng.integers(0, 4))])
         if pr:
-            kw["param_resolver"] = pr
+            kw["param_resolver"] = _shuffled_dict(rng, pr)
     try:
         return cirq.CircuitOperation(fc, **kw)
     except ValueError:
